@@ -427,6 +427,10 @@ type c20CtxOpts struct {
 	self       *btcec.PrivateKey // this node's identity (c20SelfPriv)
 	proofDelta uint32            // ProofMatureDelta (fixture: 0)
 
+	// isAlias, if set, is the gossiper's IsAlias predicate (fixture:
+	// nothing is an alias).
+	isAlias func(lnwire.ShortChannelID) bool
+
 	// onlinePeer, if set, supplies the peer object the reliable sender
 	// gets for a node that "comes online".
 	onlinePeer func(pk *btcec.PublicKey) lnpeer.Peer
@@ -506,7 +510,11 @@ func c20NewCtxOpts(t *testing.T, wps *channeldb.WaitingProofStore,
 		MinimumBatchSize:      10,
 		MaxChannelUpdateBurst: DefaultMaxChannelUpdateBurst,
 		ChannelUpdateInterval: DefaultChannelUpdateInterval,
-		IsAlias: func(lnwire.ShortChannelID) bool {
+		IsAlias: func(scid lnwire.ShortChannelID) bool {
+			if opts.isAlias != nil {
+				return opts.isAlias(scid)
+			}
+
 			return false
 		},
 		SignAliasUpdate: func(*lnwire.ChannelUpdate1) (*ecdsa.Signature,
